@@ -201,9 +201,19 @@ var xsdLitTypes = []string{"integer", "nonNegativeInteger", "positiveInteger", "
 func (g *DocGen) newTerm(kind string, depth int) *Term {
 	g.sch.nTerms++
 	t := &Term{Name: fmt.Sprintf("f%d", g.sch.nTerms), Kind: kind}
+	if g.r.Chance(8) {
+		// term names are any strings: letters of other scripts, hyphens, underscores (no dots: those separate path segments)
+		t.Name = fmt.Sprintf(g.r.Pick([]string{"f%dé", "п%d", "名%d", "f%d-x", "f%d_x", "F%d", "f%d~"}), g.sch.nTerms)
+	}
 	t.IRI = vocabBase + t.Name
 	if g.r.Chance(20) {
 		t.IRI = "https://example.com/vocab/" + t.Name
+	}
+	if g.r.Chance(12) {
+		// identifiers are compared as the strings they are: no case folding, no percent-decoding, no removal of dot segments
+		t.IRI = fmt.Sprintf(g.r.Pick([]string{"https://example.com/vocab/%s%%20x", "https://example.com/vocab/caf%%C3%%A9/%s", "https://EXAMPLE.com/Vocab/%s",
+			"https://example.com/vocab/é/%s", "https://example.com/vocab?ns=1#%s", "https://example.com/vocab/%s/", "https://example.com/a/../vocab/%s",
+			"https://example.com/vocab/%s%%2Fy", "https://example.com:443/vocab/%s", "HTTPS://example.com/vocab/%s"}), t.Name)
 	}
 	switch kind {
 	case "lit":
